@@ -55,6 +55,12 @@ func (fx *fnExec) indexAnchors() map[ssa.Instruction]anchorInfo {
 				}
 			case *ssa.Return:
 				base = "return"
+			case *ssa.Alloc:
+				if x.Heap {
+					if n := namedOf(deref(x.Type())); n != nil {
+						base = "new(" + n.Obj().Name() + ")"
+					}
+				}
 			case *ssa.TypeAssert:
 				base = "typeassert"
 			case *ssa.Extract:
@@ -142,6 +148,7 @@ func (fx *fnExec) anchorGhostSets(st *state, in ssa.Instruction, extra map[strin
 	if name == "" {
 		return
 	}
+	defer fx.anchorHypotheses(st, in, name, extra)
 	for _, a := range fx.ct.GhostSets {
 		if a.Anchor != name {
 			continue
@@ -281,7 +288,7 @@ func (fx *fnExec) execInstr(st *state, in ssa.Instruction) {
 			h := fx.heapGet(st, arr, srt)
 			z := fx.fresh("zarr", "(Array Int "+fx.d.SortOf(at.Elem())+")")
 			for i := int64(0); i < at.Len() && i < 8; i++ {
-				fx.assert(fmt.Sprintf("(= (select %s %d) %s)", z, i, fx.d.Zero(at.Elem())))
+				fx.assert(fmt.Sprintf("(= (select %s (at 0 %d)) %s)", z, i, fx.d.Zero(at.Elem())))
 			}
 			fx.heapSet(st, arr, srt, "(store "+h+" "+r+" "+z+")")
 			fx.vals[x] = val{term: r, typ: x.Type(), constLen: int(at.Len())}
@@ -290,6 +297,7 @@ func (fx *fnExec) execInstr(st *state, in ssa.Instruction) {
 		a := fx.addrOfRef(r, elem)
 		fx.storeAddr(st, a, fx.d.Zero(elem))
 		fx.vals[x] = val{term: r, typ: x.Type()}
+		fx.anchorGhostSets(st, in, map[string]sval{"res0": {term: r, typ: x.Type(), sort: "Int"}})
 	case *ssa.Store:
 		a := fx.addrOf(st, x.Addr, in)
 		fx.nilCheck(st, a, in, x.Pos())
@@ -326,17 +334,18 @@ func (fx *fnExec) execInstr(st *state, in ssa.Instruction) {
 		o := fx.operand(st, x.X)
 		sn := fx.d.SortOf(x.X.Type())
 		fx.vals[x] = val{term: fmt.Sprintf("(%s_%d %s)", sn, x.Field, o.term), typ: x.Type()}
+		fx.assumeObjInv(st, fx.vals[x].term, x.Type())
 	case *ssa.IndexAddr:
 		o := fx.operand(st, x.X)
 		i := fx.termOf(st, x.Index)
 		switch u := x.X.Type().Underlying().(type) {
 		case *types.Slice:
 			fx.safetyObl("bounds", in, x.Pos(), "index", "(and (<= 0 "+i+") (< "+i+" (sl_len "+o.term+")))")
-			fx.vals[x] = val{addr: &addr{kind: aElem, arr: "(sl_arr " + o.term + ")", idx: "(+ (sl_off " + o.term + ") " + i + ")", base: u.Elem(), typ: u.Elem()}, typ: x.Type()}
+			fx.vals[x] = val{addr: &addr{kind: aElem, arr: "(sl_arr " + o.term + ")", idx: "(at (sl_off " + o.term + ") " + i + ")", base: u.Elem(), typ: u.Elem()}, typ: x.Type()}
 		case *types.Pointer:
 			at := u.Elem().Underlying().(*types.Array)
 			fx.safetyObl("bounds", in, x.Pos(), "index", fmt.Sprintf("(and (<= 0 %s) (< %s %d))", i, i, at.Len()))
-			fx.vals[x] = val{addr: &addr{kind: aElem, arr: o.term, idx: i, base: at.Elem(), typ: at.Elem()}, typ: x.Type()}
+			fx.vals[x] = val{addr: &addr{kind: aElem, arr: o.term, idx: "(at 0 " + i + ")", base: at.Elem(), typ: at.Elem()}, typ: x.Type()}
 		default:
 			fx.fail("IndexAddr on %s", x.X.Type())
 		}
@@ -616,6 +625,7 @@ func (fx *fnExec) execUnOp(st *state, x *ssa.UnOp) {
 			}
 		}
 		fx.vals[x] = val{term: n, typ: x.Type()}
+		fx.assumeObjInv(st, n, x.Type())
 		fx.anchorGhostSets(st, x, map[string]sval{"res0": {term: n, typ: x.Type(), sort: fx.d.SortOf(elem)}})
 	case token.NOT:
 		fx.vals[x] = val{term: fx.define(fx.vname(x), "Bool", not(fx.termOf(st, x.X))), typ: x.Type()}
@@ -958,6 +968,11 @@ func (fx *fnExec) finishReturns() {
 			fx.warnings = append(fx.warnings, fmt.Sprintf("%s: assert [%s] anchored at %s: no such site (or unreachable)", fx.fn.String(), a.Label, a.Anchor))
 		}
 	}
+	for _, a := range fx.ct.Hypotheses {
+		if !fx.usedAnchors[a] {
+			fx.warnings = append(fx.warnings, fmt.Sprintf("%s: hypothesis [%s] anchored at %s: no such site (or unreachable)", fx.fn.String(), a.Label, a.Anchor))
+		}
+	}
 	for _, a := range fx.ct.Joins {
 		if !fx.usedAnchors[a] {
 			fx.warnings = append(fx.warnings, fmt.Sprintf("%s: join anchored at %s: no such site (or unreachable)", fx.fn.String(), a.Anchor))
@@ -967,5 +982,22 @@ func (fx *fnExec) finishReturns() {
 		if !fx.usedAnchors[a] {
 			fx.warnings = append(fx.warnings, fmt.Sprintf("%s: ghostset %s anchored at %s: no such site (or unreachable)", fx.fn.String(), a.Target, a.Anchor))
 		}
+	}
+}
+
+// anchorHypotheses: side conditions taken from the property statement itself (not from the code),
+// assumed at a named point and listed in the evidence.
+func (fx *fnExec) anchorHypotheses(st *state, in ssa.Instruction, name string, extra map[string]sval) {
+	for _, a := range fx.ct.Hypotheses {
+		if a.Anchor != name {
+			continue
+		}
+		fx.usedAnchors[a] = true
+		c := &specCtx{fx: fx, cur: st, old: fx.entry, names: fx.params, pkg: fx.pkg}
+		c = c.with(extra)
+		c.locals = fx.localLookup(st, in.Block())
+		v := c.eval(a.Expr)
+		fx.assume(v.term)
+		fx.assumptionsUsed[fmt.Sprintf("hypothesis [%s] of %s (side condition of the property statement): %s", a.Label, fx.g.relKey(fx.fn), a.Src)] = true
 	}
 }
